@@ -107,11 +107,13 @@ func newLexer(env *interp.ExecEnv, name string, r io.RuneScanner) *lexer {
 		name:    name,
 		r:       r,
 		token:   make(chan ast.Node),
+		done:    make(chan struct{}),
 		cancel:  make(chan struct{}),
 		heredoc: heredoc{c: make(chan struct{}, 1)},
 		line:    1,
 		col:     1,
 	}
+	l.heredoc.cancel = l.cancel
 	l.mark(0)
 	go l.run()
 	return l
@@ -1508,11 +1510,12 @@ func (l *lexer) scanCmdSubst(r rune) bool {
 			line:     l.line,
 			col:      l.col,
 		}
+		ll.heredoc.cancel = ll.cancel
 		ll.mark(off)
 		ll.last.Store(ll.pos)
 		go ll.run()
 		yyParse(ll)
-		<-ll.done
+		ll.stop()
 		if ll.err != nil {
 			l.mu.Lock()
 			l.err = ll.err
@@ -1728,6 +1731,20 @@ func (l *lexer) unread() {
 	}
 }
 
+// stop cancels the lexer and waits until its goroutine has finished, so
+// that nothing started by the parse is left running or touches the source
+// after the caller got its result.
+func (l *lexer) stop() {
+	l.mu.Lock()
+	select {
+	case <-l.cancel:
+	default:
+		close(l.cancel)
+	}
+	l.mu.Unlock()
+	<-l.done
+}
+
 func (l *lexer) Error(e string) {
 	l.error(l.last.Load().(ast.Pos), e)
 }
@@ -1782,10 +1799,11 @@ type alias struct {
 }
 
 type heredoc struct {
-	c     chan struct{}
-	n     uint32
-	mu    sync.Mutex
-	stack []*ast.Redir
+	c      chan struct{}
+	cancel chan struct{}
+	n      uint32
+	mu     sync.Mutex
+	stack  []*ast.Redir
 }
 
 func (h *heredoc) exists() bool {
@@ -1819,7 +1837,11 @@ func (h *heredoc) pop() *ast.Redir {
 		}
 		h.mu.Unlock()
 		// wait
-		<-h.c
+		select {
+		case <-h.c:
+		case <-h.cancel:
+			return nil
+		}
 	}
 	return nil
 }
